@@ -1,6 +1,7 @@
 (* C02deep — local value numbering (model Passes.lvn) preserves the behaviour of every well-formed function.
    The variable context of LVN is a special case of the CCP value context (every binding is a variable), so
-   the relation Rel of ProofsCcpRel is reused; the table of numbered values gets its own invariant. *)
+   the relation Rel of ProofsCcpRel is reused; the table of numbered values gets its own invariant.
+   As for CCP both runs are in mode Add (refines_add); `refines` is a corollary. *)
 From Coq Require Import ZArith NArith List Bool Lia.
 Import ListNotations.
 From SV Require Import Common.Int32 C02.Kernels C02deep.Syntax C02deep.Sem C02deep.Passes
@@ -40,10 +41,10 @@ Qed.
 
 Section Lvn.
   Variables (w : world) (fuel : nat).
-  Notation exec_o := (exec All w fuel).
-  Notation exec_block_o := (exec_block All w fuel).
-  Notation exec_t := (exec Wrap w fuel).
-  Notation exec_block_t := (exec_block Wrap w fuel).
+  Notation exec_o := (exec Add w fuel).
+  Notation exec_block_o := (exec_block Add w fuel).
+  Notation exec_t := (exec Add w fuel).
+  Notation exec_block_t := (exec_block Add w fuel).
 
   (* the numbered value u is what the name n holds in the optimised run *)
   Definition holds (et : env) (u : bval) (n : name) : Prop :=
@@ -264,13 +265,13 @@ Section Lvn.
           [apply (lvn_expr_range vc bc D S0 e1 y Hwf Hi Hs1 Ey) | apply (lvn_expr_range vc bc D S0 e2 y Hwf Hi Hs2 Ey)].
       + intros S eo et tr Hi HR. apply (bin_step w fuel); auto.
         intros z Ho Hz. exists z. split; [reflexivity|].
-        rewrite (RelL_expr vc bc S eo et e1 HR (in_scope_In _ _ _ Hs1 Hi)) in Hz.
-        rewrite (RelL_expr vc bc S eo et e2 HR (in_scope_In _ _ _ Hs2 Hi)) in Hz. fold a b in Hz.
+        rewrite (RelL_expr vc bc S eo et e1 HR (in_scope_In _ _ _ Hs1 Hi)) in Hz, Ho.
+        rewrite (RelL_expr vc bc S eo et e2 HR (in_scope_In _ _ _ Hs2 Hi)) in Hz, Ho. fold a b in Hz, Ho.
         assert (Va : forall y, a = EVar y -> In y S).
         { intros y Ey. eapply (RelL_expr_scope vc bc S eo et e1); eauto. eapply in_scope_In; eauto. }
         assert (Vb : forall y, b = EVar y -> In y S).
         { intros y Ey. eapply (RelL_expr_scope vc bc S eo et e2); eauto. eapply in_scope_In; eauto. }
-        split; [cbn; rewrite Hz; reflexivity|]. split.
+        split; [cbn [exec]; rewrite Ho, Hz; reflexivity|]. split.
         * intros e y [<-|[<-|[]]] Ey; auto.
         * intros et' Hf Hx. eapply holds_bin; eauto.
   Qed.
@@ -424,15 +425,6 @@ Section Lvn.
     - eapply TB_mono; [eapply TB_frame; eauto | apply incl'_app_r].
   Qed.
 
-  Lemma find_mapped (F : triple -> triple) l t :
-    (forall t, t_name (F t) = t_name t) -> NoDup (map t_name l) -> In t l ->
-    find (fun t' => N.eqb (t_name t) (t_name t')) (map F l) = Some (F t).
-  Proof.
-    intros Hn Hnd Ht. rewrite <- (Hn t). apply find_name_unique.
-    - rewrite map_map. rewrite (map_ext (fun x => t_name (F x)) t_name) by auto. assumption.
-    - now apply in_map.
-  Qed.
-
   Lemma PL_SSIf c inv ss : QL ss -> PL (SSIf c inv ss).
   Proof.
     intros HQ vc bc o vc' bc' S0 H Hsc. rewrite lvn_SSIf in H. cbn zeta in H.
@@ -446,10 +438,10 @@ Section Lvn.
       destruct (cond (eval w et (lvn_expr vc c))) as [b|] eqn:Eb; cbn [dynL]; auto.
       assert (HSB : forall x, In x S -> ~ In x (binders_l ss)) by (intros x Hx Hb; eapply Hdj; eauto).
       destruct (xorb b inv) eqn:Ex.
-      + pose proof (frame_block All w fuel ss eo tr) as Fo.
+      + pose proof (frame_block Add w fuel ss eo tr) as Fo.
         destruct (exec_block_o ss eo tr) as [eo1 tr1|v eo1 tr1| | | | |]; cbn [dynL] in *; auto.
         * destruct Hd as (et1 & S1 & Ex1 & HR1 & Lo1 & Up1).
-          pose proof (frame_block Wrap w fuel ss' et tr) as Ft. rewrite Ex1 in Ft. cbn in Fo, Ft.
+          pose proof (frame_block Add w fuel ss' et tr) as Ft. rewrite Ex1 in Ft. cbn in Fo, Ft.
           exists et1, S. split; [rewrite exec_block_cons, exec_SSIf, Eb, Ex, Ex1; reflexivity|].
           split; [|split; [apply incl'_refl | apply incl'_app_r]].
           apply (RelL_after vc bc S [] D eo et eo1 et1 HR Hwf Hi2).
@@ -489,10 +481,10 @@ Section Lvn.
       assert (HSnb2 : forall x, In x S -> ~ In x (binders_l s2)) by (intros x Hx Hb; eapply Dj2; eauto).
       assert (HSF : forall x, In x S -> ~ In x (map t_name fas)) by (intros x Hx Hf; apply (DjF x Hf); auto).
       destruct b.
-      + specialize (Hd1 S eo et tr Hi1 Hi2 HR). pose proof (frame_block All w fuel s1 eo tr) as Fo.
+      + specialize (Hd1 S eo et tr Hi1 Hi2 HR). pose proof (frame_block Add w fuel s1 eo tr) as Fo.
         destruct (exec_block_o s1 eo tr) as [eo1 tr1|v eo1 tr1| | | | |]; cbn [dynL] in *; auto.
         * destruct Hd1 as (et1 & S1 & Ex1 & HR1 & Lo1 & Up1).
-          pose proof (frame_block Wrap w fuel s1' et tr) as Ft. rewrite Ex1 in Ft. cbn in Fo, Ft.
+          pose proof (frame_block Add w fuel s1' et tr) as Ft. rewrite Ex1 in Ft. cbn in Fo, Ft.
           exists (bind_e1 w (map F fas) et1), (map t_name fas ++ S).
           split; [rewrite exec_block_cons, exec_SIf, Eb, Ex1; reflexivity|].
           split; [|split; [apply incl'_refl | intros x; rewrite !in_app_iff; tauto]].
@@ -506,10 +498,10 @@ Section Lvn.
              intros y Ey. apply Lo1. pose proof (Hfa true t Ht) as Hs. cbn in Hs. rewrite Ey in Hs.
              apply in_scope_var in Hs. rewrite !in_app_iff in *. destruct Hs; auto.
         * destruct Hd1 as [et1 Ex1]. exists et1. rewrite exec_block_cons, exec_SIf, Eb, Ex1. reflexivity.
-      + specialize (Hd2 S eo et tr Hi1 Hi2 HR). pose proof (frame_block All w fuel s2 eo tr) as Fo.
+      + specialize (Hd2 S eo et tr Hi1 Hi2 HR). pose proof (frame_block Add w fuel s2 eo tr) as Fo.
         destruct (exec_block_o s2 eo tr) as [eo1 tr1|v eo1 tr1| | | | |]; cbn [dynL] in *; auto.
         * destruct Hd2 as (et1 & S1 & Ex1 & HR1 & Lo1 & Up1).
-          pose proof (frame_block Wrap w fuel s2' et tr) as Ft. rewrite Ex1 in Ft. cbn in Fo, Ft.
+          pose proof (frame_block Add w fuel s2' et tr) as Ft. rewrite Ex1 in Ft. cbn in Fo, Ft.
           exists (bind_e2 w (map F fas) et1), (map t_name fas ++ S).
           split; [rewrite exec_block_cons, exec_SIf, Eb, Ex1; reflexivity|].
           split; [|split; [apply incl'_refl | intros x; rewrite !in_app_iff; tauto]].
@@ -579,10 +571,10 @@ Section Lvn.
         assert (HiL1 : incl' (LN ++ S0) (LN ++ S)) by (intros x; rewrite !in_app_iff; intros [Hx|Hx]; auto).
         assert (HiL2 : incl' (LN ++ S) (LN ++ D)) by (intros x; rewrite !in_app_iff; intros [Hx|Hx]; auto).
         specialize (Hdb (LN ++ S) eh th t0 HiL1 HiL2 HRL).
-        pose proof (frame_block All w fuel ss eh t0) as Fo.
+        pose proof (frame_block Add w fuel ss eh t0) as Fo.
         destruct (exec_block_o ss eh t0) as [eo1 tr1|v eo1 tr1| | | | |]; cbn [dynL] in *; auto.
         destruct Hdb as (et1 & S1 & Ex1 & HR1 & Lo1 & Up1). exists et1. split; [assumption|].
-        pose proof (frame_block Wrap w fuel ss' th t0) as Ft. rewrite Ex1 in Ft. cbn in Fo, Ft.
+        pose proof (frame_block Add w fuel ss' th t0) as Ft. rewrite Ex1 in Ft. cbn in Fo, Ft.
         split.
         - apply (RelL_after vc bc S [] D eh th _ _ HRh Hwf Hi2); unfold bind_e2.
           + intros x Hx. rewrite (lookup_bind_notin w t_e2) by auto. apply Fo. auto.
@@ -594,8 +586,8 @@ Section Lvn.
           intros y Ey. apply Lo1. specialize (Hl2 t Ht). rewrite Ey in Hl2. apply in_scope_var in Hl2.
           rewrite !in_app_iff in *. destruct Hl2 as [Hy|[Hy|Hy]]; auto. }
       pose proof (loop_sim2 Iv _ _ _ _ Hstep fuel _ _ tr Hinit) as HL.
-      pose proof (frame_stmt All w fuel (SWhile lvs ss bcol) eo tr) as FWo.
-      pose proof (frame_stmt Wrap w fuel (SWhile (map F lvs) ss' bcol) et tr) as FWt.
+      pose proof (frame_stmt Add w fuel (SWhile lvs ss bcol) eo tr) as FWo.
+      pose proof (frame_stmt Add w fuel (SWhile (map F lvs) ss' bcol) et tr) as FWt.
       rewrite exec_SWhile. rewrite exec_SWhile in FWo, FWt.
       destruct (loop (exec_block_o ss) (bind_e2 w lvs) fuel (bind_e1 w lvs eo) tr) as [? ?|v eo1 tr1| | | | |] eqn:EL;
         cbn [dynL]; auto.
@@ -627,7 +619,7 @@ Section Lvn.
   Qed.
 End Lvn.
 
-Theorem lvn_preserves w f : wf_func f = true -> refines w (lvn f) f.
+Theorem lvn_preserves_add w f : wf_func f = true -> refines_add w (lvn f) f.
 Proof.
   unfold wf_func. intros Hwf. apply andb_prop in Hwf. destruct Hwf as [Hwf Hret].
   apply andb_prop in Hwf. destruct Hwf as [Hnd Hsc]. apply nodupb_NoDup in Hnd.
@@ -645,8 +637,22 @@ Proof.
     unfold sem in *. cbn [f_body f_params f_ret].
     change (init_env {| f_params := f_params f; f_body := body; f_ret := lvn_expr vc (f_ret f) |} args)
       with (init_env f args).
-    destruct (exec_block All w fuel (f_body f) (init_env f args) []) as [eo' tr'| | | | | |]; try discriminate.
+    destruct (exec_block Add w fuel (f_body f) (init_env f args) []) as [eo' tr'| | | | | |]; try discriminate.
     injection Hsem as <- <-. cbn [dynL] in Hd. destruct Hd as (et' & S' & Ex & HR & Lo & _).
     rewrite Ex. f_equal. symmetry. apply (RelL_expr w vc bc S' eo' et' (f_ret f) HR).
     intros x Ex'. apply Lo. apply in_scope_var. rewrite <- Ex'. exact Hret.
+Qed.
+
+Corollary lvn_preserves w f : wf_func f = true -> refines w (lvn f) f.
+Proof. intros H. apply refines_add_refines. now apply lvn_preserves_add. Qed.
+
+(* one round of the per-function pipeline with value numbering on *)
+Lemma round_preserves w f f1 fl :
+  wf_func f = true -> ccp f = Some (f1, fl) -> fst fl = false -> wf_func f1 = true -> wf_func (lvn f1) = true ->
+  refines_add w (dce (lvn f1)) f.
+Proof.
+  intros H1 H2 H3 H4 H5.
+  apply (refines_add_trans w f f1); [exact (ccp_gen_preserves_add ver_now w f f1 fl H1 H2 H3)|].
+  apply (refines_add_trans w f1 (lvn f1)); [exact (lvn_preserves_add w f1 H4)|].
+  intros args fuel v tr Hs. exact (dce_preserves_mode Add w (lvn f1) args fuel v tr H5 Hs).
 Qed.
